@@ -136,6 +136,81 @@ def _norm_effect(e, ignore_kinds, ignore_calls, ordered=False, store_fields=None
     return e
 
 
+_IDEM_CACHE: dict = {}
+
+
+def idempotent_resets(model: Model) -> frozenset:
+    """Pairs (method name, field name): the field's declared class has a method of that name which only assigns literal
+    constants / empty containers to fields of its receiver (DictCache.reset): calling it twice in a row on that field
+    is calling it once."""
+    k = id(model)
+    if k in _IDEM_CACHE:
+        return _IDEM_CACHE[k][1]
+    import ast as _ast
+
+    def lit(v):
+        return isinstance(v, _ast.Constant) or (isinstance(v, (_ast.Dict, _ast.List, _ast.Set, _ast.Tuple)) and not (
+            getattr(v, "keys", None) or getattr(v, "elts", None)))
+
+    pure = set()          # (class name, method name)
+    for f in model.all_functions():
+        if f.cls is None or f.name.startswith("__"):
+            continue
+        body = [st for st in f.node.body if not (isinstance(st, _ast.Expr) and isinstance(st.value, _ast.Constant))]
+        ok = bool(body) and len(f.node.args.args) == 1
+        for st in body:
+            tg = st.targets[0] if isinstance(st, _ast.Assign) and len(st.targets) == 1 else (st.target if isinstance(st, _ast.AnnAssign) else None)
+            if not (tg is not None and isinstance(tg, _ast.Attribute) and isinstance(tg.value, _ast.Name) and tg.value.id == "self"
+                    and st.value is not None and lit(st.value)):
+                ok = False
+        if ok:
+            pure.add((f.cls.name, f.name))
+    pairs = set()
+    for c in model.classes.values():
+        try:
+            fields = model.fields_assigned_in_init(c)
+        except Exception:  # noqa
+            continue
+        for fld in fields:
+            t = model.field_type(c, fld)
+            tn = getattr(t, "name", None)
+            for (cn, mn) in pure:
+                if cn == tn:
+                    pairs.add((mn, fld))
+    _IDEM_CACHE.clear()
+    _IDEM_CACHE[k] = (model, frozenset(pairs))
+    return _IDEM_CACHE[k][1]
+
+
+_IDEM_NAMES: frozenset = frozenset()
+
+
+def _dedupe_idempotent(effs):
+    """Drop a repeated idempotent reset of a receiver when nothing in between touches that receiver."""
+    if not _IDEM_NAMES:
+        return effs
+    out = []
+    fresh: dict = {}          # receiver text -> True while the receiver is known to be in its reset state
+    for e in effs:
+        if e[0] == "call" and not e[3] and isinstance(e[2], tuple) and len(e[2]) == 3 and e[2][0] == "attr" \
+                and (e[1], e[2][2]) in _IDEM_NAMES:
+            rk = srepr(e[2])
+            if fresh.get((e[1], rk)):
+                continue
+            for key in [kk for kk in fresh if kk[1] == rk]:
+                fresh.pop(key)
+            fresh[(e[1], rk)] = True
+            out.append(e)
+            continue
+        txt = srepr(e)
+        for key in [kk for kk in fresh if kk[1] in txt]:
+            fresh.pop(key)
+        if e[0] == "foreach":
+            fresh.clear()
+        out.append(e)
+    return out
+
+
 def _sig(paths, ignore_kinds, ignore_calls, keep_raise_effects, ordered=False, store_fields=None):
     from collections import Counter
     out = []
@@ -144,6 +219,7 @@ def _sig(paths, ignore_kinds, ignore_calls, keep_raise_effects, ordered=False, s
         if isinstance(ret, Raise) and not keep_raise_effects:
             fx = ()
         effs = [x for x in (_norm_effect(e, ignore_kinds, ignore_calls, ordered, store_fields) for e in fx) if x is not None]
+        effs = _dedupe_idempotent(effs)
         from ..vn import FX_STRUCT
         for x in effs:
             FX_STRUCT.setdefault(srepr(x), x)
@@ -186,6 +262,8 @@ def effects_check(res, model: Model, qual: str, ref_src: str, what: str, effect_
     except Unreadable as e:
         raise AnalysisError(f"{res.prop}: {qual} is outside the evaluator's language ({e}); ledger clause '{what}' "
                             f"cannot be decided")
+    global _IDEM_NAMES
+    _IDEM_NAMES = idempotent_resets(model)
     s1 = _sig(p1, ignore_kinds, ignore_calls, keep_raise_effects, ordered, store_fields)
     s2 = _sig(p2, ignore_kinds, ignore_calls, keep_raise_effects, ordered, store_fields)
     rest = list(s2)
